@@ -277,6 +277,30 @@ pub fn probes(w: &World, rec: &mut Recorder, ix: &Ix, cfg: &MatrixCfg, rng_salt:
                         c.reg(ata, &format!("ata:U3:{}", c.id(&mint)));
                         probe(&c, rec, ix, json!({"kind": "auth", "slot": auth_slot, "variant": "empty_token_account"}), &[create, xfer]);
                     }
+                    // a look-alike of the position token account that no token program owns: the same bytes (owner field:
+                    // the attacker, amount 1) under a foreign program whose id shares the last byte with the real token
+                    // program's (the Pinocchio loader dispatches on that byte), presented with the attacker as signer
+                    if names.contains(&auth_slot.to_string()) {
+                        let mut c = w.clone();
+                        let attacker = c.users["mallory"];
+                        let mut fake_prog = [0x44u8; 32];
+                        fake_prog[31] = prog.to_bytes()[31];
+                        let fake_prog = solana_program::pubkey::Pubkey::new_from_array(fake_prog);
+                        let forged = c.new_key("forged:position_token_account");
+                        let mut data = acct.data.clone();
+                        data[32..64].copy_from_slice(attacker.as_ref());
+                        c.reg(fake_prog, "prog:lookalike");
+                        c.bank.accts.insert(forged, crate::svm::Acct { lamports: acct.lamports, data, owner: fake_prog, executable: false });
+                        let proj = c.project();
+                        let pre = project::diff(&c.last_proj, &proj);
+                        c.last_proj = proj;
+                        let mut v = ix.clone();
+                        v.set_key(&names[i], forged);
+                        v.set_key(auth_slot, attacker);
+                        let mut tag = json!({"kind": "auth", "slot": auth_slot, "variant": "forged_token_account", "probe": true});
+                        tag["preDiff"] = pre;
+                        rec.exec(&mut c, &v, false, tag);
+                    }
                 }
             }
         }
